@@ -96,12 +96,9 @@ Definition opt_token_int (fuel : nat) (k : token) : prog Z :=
     t2 <- scan_iw fuel ;;
     match ti_tok t2 with
     | INTEGER =>
-        match parse_int_lit (ti_lit t2) with
-        | None => Ret 0                      (* syntax error: ParseInt returns 0, the error is dropped *)
-        | Some v =>
-            (* n, _ := strconv.ParseInt(lit, 10, 64): saturates on range error *)
-            let n := if v >? max_i64 then max_i64 else if v <? min_i64 then min_i64 else v in
-            if n <? 0 then fail_at t2 else Ret n
+        match parse_i64 (ti_lit t2) with
+        | None => fail_at t2                 (* strconv.ParseInt: syntax or range error, reported at the number *)
+        | Some n => if n <? 0 then fail_at t2 else Ret n
         end
     | _ => fail_at t2
     end.
